@@ -48,6 +48,9 @@ Definition K_ACT := 35.
 Definition K_PWRLVL := 36. (* a = fru, b = power type: [properties, delay, multiplier, draw...] *)
 Definition K_FANPROP := 37.
 Definition K_RESET := 40.
+Definition K_HPMCAP := 41. (* [HPM.1 version, capabilities, upgrade, selftest, rollback, inaccessibility timeout, components] *)
+Definition K_HPMSTAT := 42. (* [command in progress, last completion code] *)
+Definition K_SELFTEST := 43. (* [result 1, result 2] *)
 
 Definition zeros (n : nat) : list N := repeat 0 n.
 
@@ -77,6 +80,9 @@ Definition default (k : key) : list N :=
   else if kind =? K_ACT then [0]
   else if kind =? K_PWRLVL then [0x01; 0; 1; 10; 20]
   else if kind =? K_FANPROP then [1; 10; 5; 0x80]
+  else if kind =? K_HPMCAP then [1; 0x0f; 10; 20; 30; 40; 0x05]
+  else if kind =? K_HPMSTAT then [0; 0]
+  else if kind =? K_SELFTEST then [0x55; 0]
   else [].
 
 Definition get (s : store) (k : key) : list N :=
@@ -252,6 +258,9 @@ Definition h_picmg (s : store) (cmd lun : N) (d : list N) : store * reply :=
     ok (put s (K_FAN, at_ d 1, 0) [at_ d 2; at_ (get s (K_FAN, at_ d 1, 0)) 1]) [0]
   else if cmd =? 0x16 then                              (* Get Fan Level *)
     if negb (longer d 2) then cc s 0xc7 else ok s (0 :: get s (K_FAN, at_ d 1, 0))
+  else if cmd =? 0x2e then ok s (0 :: get s (K_HPMCAP, 0, 0))     (* HPM.1 Get Target Upgrade Capabilities *)
+  else if cmd =? 0x34 then ok s (0 :: get s (K_HPMSTAT, 0, 0))    (* HPM.1 Get Upgrade Status *)
+  else if cmd =? 0x36 then ok s (0 :: get s (K_SELFTEST, 0, 0))   (* HPM.1 Query Selftest Results *)
   else cc s 0xc1.
 
 Definition bmc_handle : device store := fun s r =>
